@@ -955,10 +955,62 @@ func streamGoConv(o *Out, r *rand.Rand, n int, thorough bool) {
 			}
 			return t
 		})
+		// Go functions that fill the variables whose addresses they are given (the Sscan / Unmarshal style): the address-of-variable
+		// arguments may stand in fixed and in variadic positions
+		_ = e.Define("scanv", func(prefix string, targets ...*interface{}) int64 {
+			for i, tg := range targets {
+				*tg = int64(200 + i)
+			}
+			return int64(len(targets))
+		})
+		_ = e.Define("scan2", func(a *interface{}, b *interface{}) int64 { *a = "A"; *b = "B"; return 2 })
+		_ = e.Define("scan1v", func(a *interface{}, rest ...*interface{}) int64 {
+			*a = int64(1)
+			for _, r := range rest {
+				*r = int64(2)
+			}
+			return int64(1 + len(rest))
+		})
 		named := []struct {
 			src   string
 			check func(res interface{}, err error) string // "" = fine
 		}{
+			{"va = 0\nvb = 0\nn = scanv(\"ab\", &va, &vb)\n[n, va, vb]", func(res interface{}, err error) string {
+				if err != nil || fmt.Sprint(res) != "[2 200 201]" {
+					return fmt.Sprintf("a variadic Go function given &va, &vb must fill both and return 2: got %v, err %v", res, err)
+				}
+				return ""
+			}},
+			{"va = 0\nn = scanv(\"ab\", &va)\n[n, va]", func(res interface{}, err error) string {
+				if err != nil || fmt.Sprint(res) != "[1 200]" {
+					return fmt.Sprintf("scanv(\"ab\", &va): got %v, err %v", res, err)
+				}
+				return ""
+			}},
+			{"n = scanv(\"ab\")\nn", func(res interface{}, err error) string {
+				if err != nil || fmt.Sprint(res) != "0" {
+					return fmt.Sprintf("scanv(\"ab\"): got %v, err %v", res, err)
+				}
+				return ""
+			}},
+			{"va = 0\nvb = 0\nn = scan2(&va, &vb)\n[n, va, vb]", func(res interface{}, err error) string {
+				if err != nil || fmt.Sprint(res) != "[2 A B]" {
+					return fmt.Sprintf("scan2(&va, &vb): got %v, err %v", res, err)
+				}
+				return ""
+			}},
+			{"va = 0\nvb = 0\nvc = 0\nn = scan1v(&va, &vb, &vc)\n[n, va, vb, vc]", func(res interface{}, err error) string {
+				if err != nil || fmt.Sprint(res) != "[3 1 2 2]" {
+					return fmt.Sprintf("scan1v(&va, &vb, &vc): got %v, err %v", res, err)
+				}
+				return ""
+			}},
+			{"func w() {\nvar la = 0\nvar lb = 0\nscanv(\"p\", &la, &lb)\nreturn [la, lb]\n}\nw()", func(res interface{}, err error) string {
+				if err != nil || fmt.Sprint(res) != "[200 201]" {
+					return fmt.Sprintf("scanv inside a function on its locals: got %v, err %v", res, err)
+				}
+				return ""
+			}},
 			{"put(m)", func(res interface{}, err error) string {
 				if err != nil || m["new"] != "v" {
 					return fmt.Sprintf("the callee's store into the map is lost: Go map now %v, err %v", m, err)
